@@ -145,7 +145,7 @@ def obligations(tier):
                   harness='C01_pfile', func='sul_fields_max', timeout=170 if q else 900, parts=11))
     obs.append(Ob('sul_max_record_length_five_digits_reported', 'ch', 'maximum record length field: 1 + 4 symbolic digits, value 10000..16384', ['pFile.StorageUnitLabel.__init__'],
                   harness='C01_pfile', func='sul_fields_max_high', timeout=170 if q else 900, parts=7))
-    obs.append(Ob('visible_record_length_boundaries', 'ch', '2 visible records, each filled exactly by one segment: lengths 20 (minimum) / 8192 / 16382 / 16384 (maximum), pad 0..2, trailing length on/off',
+    obs.append(Ob('visible_record_length_boundaries', 'ch', '2 visible records, each filled exactly by one segment: lengths 20 (minimum) / 8192 / 16382 / 16384 (maximum), pad 0..2, trailing length on/off; label declares the largest length; also read from a stream already partly or wholly consumed, twice',
                   ['pFile.VisibleRecord._read (MIN_LENGTH / MAX_LENGTH)', 'pFile.FileRead.iter_logical_records'], harness='C01_pfile', func='vr_length_boundaries',
                   timeout=170 if q else 900, stubs=['SymFile']))
     obs.append(Ob('sequential_read_two_segments_quick', 'ch', '2 segments as 1 or 2 logical records, pad 0..2 (second segment also: nothing but 12 pad bytes), checksum/encrypted on both, trailing length on the first, 1..2 visible records, symbolic payload bytes',
